@@ -223,6 +223,7 @@ class HDFOutput(Output):
                     for x in arrays_grp.attrs['output_property_arrays']
                 ]
             array.set_output_arrays(output_array)
+            array.align_particles()
             particles[str(name)] = array
         return particles
 
